@@ -211,15 +211,37 @@ def prevParts : Option Val → Option (String × KV × KV)
   | some (.spec (some cp) ia dk) => some (cp, ia, dk)
   | _ => none
 
+/-- `if prev_val is None and not inspect.isabstract(typehint): prev_val = Namespace(class_path=get_import_path(typehint))`:
+    the class_path known before the value is looked at -/
+def prevCpOf (E : ClassEnv) (base : String) (prev : Option Val) : Option String :=
+  match prevParts prev with
+  | some (cp, _, _) => some cp
+  | none => if isAbstract E base then none else some base
+
+/-- `adapt_class_type` (and the `cfg.update` that stores its result) once the class is known -/
+def adaptClass (rec : String → Option Val → Val → Except Err Val) (pp : Option (String × KV × KV))
+    (cp : String) (params : List IParam) (ia0 dk0 : KV) : Except Err Val :=
+  -- discard_init_args_on_class_path_change
+  let prevIa : KV := match pp with
+    | some (pcp, pia, _) => if pcp != cp then keepArgs rec params pia else pia
+    | none => []
+  -- dict_kwargs that are real parameters become init_args
+  let moved := dk0.filter (fun e => (findParam params e.1).isSome)
+  let dk1 := dk0.filter (fun e => !(findParam params e.1).isSome)
+  match mergeArgs rec params (ia0 ++ moved) prevIa with
+  | .error e => .error e
+  | .ok ia =>
+    -- new dict_kwargs are merged over the previous ones of the same class; without new ones the stored
+    -- dict_kwargs stay where they are (`cfg.update(val, dest)` only writes the keys `val` has)
+    let dk : KV := match pp with
+      | some (pcp, _, pdk) => if dk1.isEmpty then pdk else if pcp == cp then overlay dk1 pdk else dk1
+      | none => dk1
+    .ok (.spec (some cp) ia dk)
+
 def adapt (E : ClassEnv) : Nat → String → Option Val → Val → Except Err Val
   | 0, _, _, _ => .error .fuel
   | fuel + 1, base, prev, raw =>
-    let pp := prevParts prev
-    -- `if prev_val is None and not inspect.isabstract(typehint): prev_val = Namespace(class_path=get_import_path(typehint))`
-    let prevCp : Option String := match pp with
-      | some (cp, _, _) => some cp
-      | none => if isAbstract E base then none else some base
-    match asNamespace prevCp raw with
+    match asNamespace (prevCpOf E base prev) raw with
     | .error e => .error e
     | .ok (cp0, ia0, dk0) =>
       match resolveName E base cp0 with
@@ -227,24 +249,7 @@ def adapt (E : ClassEnv) : Nat → String → Option Val → Val → Except Err 
       | .ok path =>
         match checkImport E base path with
         | .error e => .error e
-        | .ok (cp, params) =>
-          let rec' := adapt E fuel
-          -- discard_init_args_on_class_path_change
-          let prevIa : KV := match pp with
-            | some (pcp, pia, _) => if pcp != cp then keepArgs rec' params pia else pia
-            | none => []
-          -- dict_kwargs that are real parameters become init_args
-          let moved := dk0.filter (fun e => (findParam params e.1).isSome)
-          let dk1 := dk0.filter (fun e => !(findParam params e.1).isSome)
-          match mergeArgs rec' params (ia0 ++ moved) prevIa with
-          | .error e => .error e
-          | .ok ia =>
-            -- new dict_kwargs are merged over the previous ones of the same class; without new ones the stored
-            -- dict_kwargs stay where they are (`cfg.update(val, dest)` only writes the keys `val` has)
-            let dk : KV := match pp with
-              | some (pcp, _, pdk) => if dk1.isEmpty then pdk else if pcp == cp then overlay dk1 pdk else dk1
-              | none => dk1
-            .ok (.spec (some cp) ia dk)
+        | .ok (cp, params) => adaptClass (adapt E fuel) (prevParts prev) cp params ia0 dk0
 
 /-! ### the end of the parse: defaults and required parameters of the named class -/
 
@@ -349,10 +354,7 @@ def instantiate (v : Val) : List Ctor := (inst v []).1
 
 /-- the explicit dict `{class_path, init_args, dict_kwargs}` that a value stands for, given the class known so far -/
 def shortToExplicit (E : ClassEnv) (base : String) (prev : Option Val) (raw : Val) : Except Err Val :=
-  let prevCp : Option String := match prevParts prev with
-    | some (cp, _, _) => some cp
-    | none => if isAbstract E base then none else some base
-  match asNamespace prevCp raw with
+  match asNamespace (prevCpOf E base prev) raw with
   | .error e => .error e
   | .ok (cp0, ia0, dk0) =>
     match resolveName E base cp0 with
